@@ -138,6 +138,10 @@ class Lib:
 
     # ------------------------------------------------------------ iteration
     def try_iterate_concrete(self, interp, it, node):
+        if isinstance(it, SOpt):
+            if interp.truth(it.isnone, node):
+                raise PyRaise("TypeError", "'NoneType' object is not iterable", node)
+            return self.try_iterate_concrete(interp, it.val, node)
         if isinstance(it, CList):
             return list(it.items)
         if isinstance(it, tuple):
@@ -178,7 +182,82 @@ class Lib:
         interp.err(node, "cannot iterate over %r" % (it,))
 
     def try_summarize_loop(self, interp, node, env, n, getter):
-        return False
+        """`for t in <symbolic range>: ... L.append(e) ...` where every path through the body appends exactly once to
+        one local list and changes nothing else: the loop is the map  L += [elem(t) for t in range]  with
+        elem(t) = ite over the body paths.  The summary is exact (no invariant needed); exceptions inside the body
+        become safe.* obligations (they must be unreachable for every t)."""
+        muts = mutated_exprs(node.body)
+        if not muts or any(m[0] != "append" or not isinstance(m[1], ast.Name) for m in muts):
+            return False
+        lname = muts[0][1].id
+        if any(m[1].id != lname for m in muts):
+            return False
+        for sub in ast.walk(ast.Module(body=node.body, type_ignores=[])):
+            if isinstance(sub, (ast.Break, ast.Return, ast.While)):
+                return False
+        try:
+            L = env.lookup(lname)
+        except KeyError:
+            return False
+        if not isinstance(L, (CList, SSeq)) or L.kind != "list":
+            return False
+        ctx = interp.ctx
+        k = z3.Int(fresh("lt"))
+        saved_vars = dict(env.vars)
+        log = []
+        ctx.summary.append((L, log))
+        try:
+            with ctx.scope():
+                ctx.assume(And(compare("<=", 0, SInt(k)), compare("<", SInt(k), n)))
+
+                def thunk():
+                    del log[:]
+                    env.vars.clear()
+                    env.vars.update(saved_vars)
+                    interp.assign(node.target, getter(SInt(k)), env, node)
+                    interp.exec_block(node.body, env)
+                    return list(log)
+                paths = ctx.explore_local(thunk)
+                elems = []
+                for conds, outcome, val in paths:
+                    cond = z3.And(*conds) if conds else z3.BoolVal(True)
+                    if outcome == "raise":
+                        e = val
+                        with ctx.scope():
+                            ctx._add(cond)
+                            try:
+                                ctx.oblige("safe", "%s@L%s" % (e.cls, getattr(e.node, "lineno", "?")), False, e.node)
+                            except PathEnd:
+                                pass
+                        continue
+                    if outcome == "continue":
+                        val = list(log) if val is None else val
+                    if outcome not in ("normal", "continue") or val is None or len(val) != 1:
+                        interp.err(node, "loop over a symbolic range is not a one-append-per-iteration map; it needs an invariant")
+                    elems.append((cond, val[0]))
+        finally:
+            ctx.summary.pop()
+            env.vars.clear()
+            env.vars.update(saved_vars)
+        if not elems:
+            interp.err(node, "no feasible path through the loop body")
+        # merge the path values: ite chain
+        cur = elems[-1][1]
+        for cond, v in reversed(elems[:-1]):
+            cur = self.merge_values(interp, wrap(cond), v, cur, node)
+        new = self.lambda_seq(interp, n, k, cur, "list", node)
+        merged = self.concat(interp, [L, new], "list", node) if not (isinstance(Len(L), int) and Len(L) == 0) else new
+        if isinstance(merged, SSeq) and getattr(new, "wrapk", None):
+            merged.wrapk = new.wrapk
+        env.set_nonlocal(lname, merged) if lname not in env.vars else env.set(lname, merged)
+        for nm in assigned_names(node.body) + assigned_names([node.target]):
+            if nm != lname:
+                env.set(nm, Poison("assigned inside a summarised loop"))
+        return True
+
+    def merge_values(self, interp, cond, a, b, node):
+        """ite(cond, a, b) on values (scalars, options, wrapped observables)"""
+        return Ite(cond, a, b)
 
     # ------------------------------------------------------------ comprehensions
     def comprehension(self, interp, node, env, kind):
@@ -222,14 +301,43 @@ class Lib:
         k = z3.Int(fresh("ci"))
         with ctx.scope():
             ctx.assume(And(compare("<=", 0, SInt(k)), compare("<", SInt(k), n)))
-            e2 = Env(env)
-            interp.assign(g.target, getter(SInt(k)), e2, node)
-            ctx.nofork += 1
+
+            def thunk():
+                e2 = Env(env)
+                interp.assign(g.target, getter(SInt(k)), e2, node)
+                return interp.eval(node.elt, e2)
+            saved = ctx.nofork
+            ctx.nofork = 0
             try:
-                v = interp.eval(node.elt, e2)
+                v = self.merge_paths(interp, ctx.explore_local(thunk), node)
             finally:
-                ctx.nofork -= 1
+                ctx.nofork = saved
         return self.lambda_seq(interp, n, k, v, "list", node)
+
+    def merge_paths(self, interp, paths, node):
+        """value of an expression evaluated along several local paths: ite over the path conditions; a raising path
+        becomes a safe.* obligation (it must be unreachable)"""
+        ctx = interp.ctx
+        vals = []
+        for conds, outcome, val in paths:
+            cond = z3.And(*conds) if conds else z3.BoolVal(True)
+            if outcome == "raise":
+                with ctx.scope():
+                    ctx._add(cond)
+                    try:
+                        ctx.oblige("safe", "%s@L%s" % (val.cls, getattr(val.node, "lineno", "?")), False, val.node)
+                    except PathEnd:
+                        pass
+                continue
+            if outcome != "normal":
+                interp.err(node, "control flow inside an element expression")
+            vals.append((cond, val))
+        if not vals:
+            interp.err(node, "no feasible path through an element expression")
+        cur = vals[-1][1]
+        for cond, v in reversed(vals[:-1]):
+            cur = self.merge_values(interp, wrap(cond), v, cur, node)
+        return cur
 
     def lambda_seq(self, interp, n, k, v, kind, node):
         none = None
@@ -315,7 +423,7 @@ class Lib:
             ok = And(compare("<", i, n), compare(">=", i, arith("-", 0, n)))
             j = Ite(compare("<", i, 0), arith("+", i, n), i)
         if ok is not True:
-            if ok is False or not ctx.decide(tb(ok), "safe.index", node):
+            if ok is False or not ctx.decide(tb(ok), "IndexError", node):
                 raise PyRaise("IndexError", what, node)
         if not isinstance(i, int):
             # after the bounds decision try to simplify the common non-negative case
@@ -584,7 +692,7 @@ class Lib:
                 ln = Ite(compare(">", b, a), arith("-", b, a), 0)
                 same = compare("==", v.length, ln)
                 if same is not True:
-                    if same is False or not interp.ctx.decide(tb(same), "safe.slice-store", node):
+                    if same is False or not interp.ctx.decide(tb(same), "ValueError", node):
                         raise PyRaise("ValueError", "could not broadcast", node)
                 newv = z3.Select(v.arr, k - tz(a))
                 if obj.ekind == "real" and v.ekind == "int":
@@ -622,7 +730,7 @@ class Lib:
                     if na == 1 or nb == 1:
                         interp.err(node, "broadcast of length-1 arrays")
                     raise PyRaise("ValueError", "operands could not be broadcast together", node)
-                if not interp.ctx.decide(tb(same), "safe.broadcast", node):
+                if not interp.ctx.decide(tb(same), "ValueError", node):
                     raise PyRaise("ValueError", "operands could not be broadcast together", node)
         if isinstance(a, CList) and (not sb or isinstance(b, CList)):
             items = [f(x, (b.items[i] if sb else b)) for i, x in enumerate(a.items)]
@@ -679,7 +787,40 @@ class Lib:
         r = self.binop_ext(interp, op, a, b, node)
         return r
 
+    DUNDER = {"+": ("__add__", "__radd__"), "-": ("__sub__", "__rsub__"), "*": ("__mul__", "__rmul__"),
+              "/": ("__truediv__", "__rtruediv__"), "**": ("__pow__", "__rpow__"), "@": ("__matmul__", "__rmatmul__")}
+
+    def dunder(self, interp, obj, name, args, node):
+        """call a special method defined in the repository class of obj (Python operator dispatch)"""
+        from .interp import NOT_IMPLEMENTED
+        if not isinstance(obj, SObj):
+            return NotImplemented
+        cm = interp.module.class_member(obj.cls, name) or self._class_member_any(interp, obj.cls, name)
+        if cm is None or cm[0] != "method":
+            return NotImplemented
+        r = interp.call_repo(cm[2], cm[1], [obj] + list(args), {}, node, bound=True)
+        if r is NOT_IMPLEMENTED:
+            return NotImplemented
+        return r
+
+    def _class_member_any(self, interp, cls, name):
+        for rel, mod in interp.module.registry.mods.items():
+            if cls in mod.classes:
+                return mod.class_member(cls, name)
+        return None
+
     def binop_ext(self, interp, op, a, b, node):
+        if op in self.DUNDER and (isinstance(a, SObj) or isinstance(b, SObj)):
+            fwd, rev = self.DUNDER[op]
+            if isinstance(a, SObj):
+                r = self.dunder(interp, a, fwd, [b], node)
+                if r is not NotImplemented:
+                    return r
+            if isinstance(b, SObj):
+                r = self.dunder(interp, b, rev, [a], node)
+                if r is not NotImplemented:
+                    return r
+            raise PyRaise("TypeError", "unsupported operand type(s) for %s" % op, node)
         return NotImplemented
 
     def matmul(self, interp, a, b, node):
@@ -1082,12 +1223,19 @@ class Lib:
             return Ite(compare(">=", x, 0), x, arith("-", 0, x))
         if isinstance(x, (SSeq, CList)):
             return self.elementwise(interp, lambda a, _: self.f_abs(interp, [a], {}, node), x, 0, node)
+        if isinstance(x, SObj):
+            r = self.dunder(interp, x, "__abs__", [], node)
+            if r is not NotImplemented:
+                return r
         r = self.unary_ext(interp, "abs", x, node)
         if r is not NotImplemented:
             return r
         interp.err(node, "abs(%r)" % (x,))
 
     def unary_ext(self, interp, name, x, node):
+        return NotImplemented
+
+    def truth_ext(self, interp, v, node):
         return NotImplemented
 
     def _minmax(self, interp, args, kwargs, node, op):
@@ -1097,7 +1245,7 @@ class Lib:
             if items is None:
                 if isinstance(xs, SRange):
                     n = xs.length()
-                    if not interp.ctx.decide(tb(compare(">", n, 0)), "safe.min", node):
+                    if not interp.ctx.decide(tb(compare(">", n, 0)), "ValueError", node):
                         raise PyRaise("ValueError", "min() arg is an empty sequence", node)
                     return xs.start if op == "<" else xs.get(arith("-", n, 1))
                 if isinstance(xs, SSeq):
@@ -1120,7 +1268,7 @@ class Lib:
     def seq_minmax(self, interp, xs, op, node):
         """min/max of a symbolic sequence: a fresh value m with  (∀i: m <= x[i]) ∧ (∃i: m == x[i])"""
         ctx = interp.ctx
-        if not ctx.decide(tb(compare(">", xs.length, 0)), "safe.min", node):
+        if not ctx.decide(tb(compare(">", xs.length, 0)), "ValueError", node):
             raise PyRaise("ValueError", "min() arg is an empty sequence", node)
         m = SInt(z3.Int(fresh("mm"))) if xs.ekind == "int" else SReal(z3.Real(fresh("mm")))
         w = SInt(z3.Int(fresh("mm.at")))
@@ -1434,7 +1582,7 @@ class Lib:
                 raise PyRaise("ValueError", "negative dimensions", node)
             return CList([val] * n, "ndarray", "real")
         ok = compare(">=", n, 0)
-        if not interp.ctx.decide(tb(ok), "safe.shape", node):
+        if not interp.ctx.decide(tb(ok), "ValueError", node):
             raise PyRaise("ValueError", "negative dimensions are not allowed", node)
         return SSeq(n, z3.K(z3.IntSort(), z3.RealVal(val)), "ndarray", "real")
 
@@ -1483,6 +1631,11 @@ class Lib:
                 x = x.val
             if isinstance(x, SCALAR):
                 return self.real_fn(interp, name, x, node)
+            if isinstance(x, SObj):
+                mname = {"abs": "__abs__"}.get(name, name)
+                r = self.dunder(interp, x, mname, [], node)
+                if r is not NotImplemented:
+                    return r
             r = self.unary_ext(interp, name, x, node)
             if r is not NotImplemented:
                 return r
@@ -1628,6 +1781,21 @@ class Lib:
             nt = z3.ToInt(nt)
         return wrap(BESSEL_K(nt, treal(x)))
 
+    def f_np__argmax(self, interp, args, kwargs, node):
+        """np.argmax: an index of a maximal element (assumed)"""
+        x = args[0]
+        if isinstance(x, CList):
+            x = self.to_sseq(interp, x, node)
+        if not isinstance(x, SSeq):
+            interp.err(node, "np.argmax(%r)" % (x,))
+        ctx = interp.ctx
+        if not ctx.decide(tb(compare(">", x.length, 0)), "ValueError", node):
+            raise PyRaise("ValueError", "attempt to get argmax of an empty sequence", node)
+        w = SInt(z3.Int(fresh("argmax")))
+        ctx.assume(And(compare("<=", 0, w), compare("<", w, x.length), ForAll(0, x.length, lambda i: compare("<=", x.get(i), x.get(w))),
+                       ForAll(0, w, lambda i: compare("<", x.get(i), x.get(w)))))
+        return w
+
     def f_np__prod(self, interp, args, kwargs, node):
         items = self.iterate_concrete(interp, args[0], node)
         cur = 1
@@ -1637,8 +1805,11 @@ class Lib:
 
     # ---- methods on sequences / dicts / strings
     def m_append(self, interp, obj, args, kwargs, node):
-        self.check_writable(interp, obj, node)
         (v,) = args
+        if interp.ctx.summary and interp.ctx.summary[-1][0] is obj:
+            interp.ctx.summary[-1][1].append(v)
+            return None
+        self.check_writable(interp, obj, node)
         if isinstance(obj, CList):
             obj.items.append(v)
             return None
